@@ -93,6 +93,8 @@ pub enum MSlot {
     Vec(Vec<Mid>, Vec<bool>),
     List(Mid),
     Map(Mid),
+    /// live get_elements_by_tag_name list: (node it was taken from, tag name)
+    TagList(Mid, String),
     Ctx(Vec<(String, String)>),
     /// a merged text node of the text-expanded view: the pieces it stood for when the handle was taken
     Run(Vec<Mid>),
@@ -536,7 +538,7 @@ impl Model {
         let mut h = BTreeSet::new();
         for s in self.slots.iter().flatten() {
             match s {
-                MSlot::Node(m) | MSlot::List(m) | MSlot::Map(m) => {
+                MSlot::Node(m) | MSlot::List(m) | MSlot::Map(m) | MSlot::TagList(m, _) => {
                     h.insert(*m);
                 }
                 // a merged text handle (Run) keeps its pieces alive in the implementation, but nothing
